@@ -545,6 +545,10 @@ def _groups(draw, n, labels=None, need_both_labels=False):
     return [g[i] for i in draw(st.permutations(range(n)))]
 
 
+# containers for grouping columns: the vector containers plus pandas category dtype (with an unused category)
+_SF_KINDS = st.sampled_from(gen.VECTOR_KINDS + ["series_categorical", "dataframe_categorical"])
+
+
 @st.composite
 def _named_cases(draw):
     n = draw(st.integers(3, 12))
@@ -553,7 +557,7 @@ def _named_cases(draw):
         "y_pred": draw(st.lists(st.integers(0, 1), min_size=n, max_size=n)),
         "g": _groups(draw, n),
         "w": draw(st.one_of(st.none(), st.lists(st.sampled_from([1.0, 2.0, 0.5, 3.0]), min_size=n, max_size=n))),
-        "kinds": [draw(gen.vector_kind) for _ in range(4)],
+        "kinds": [draw(gen.vector_kind), draw(gen.vector_kind), draw(_SF_KINDS), draw(gen.vector_kind)],
         "plans": [draw(gen.index_plan) for _ in range(4)],
         "perm": list(draw(st.permutations(range(n)))),
         "shift": draw(st.integers(1, 2)),
@@ -576,7 +580,8 @@ def _moment_cases(draw):
         "levels": draw(st.lists(st.integers(0, 3), min_size=n, max_size=n)),
         "h": draw(st.lists(st.sampled_from([0.0, 1.0, 0.25, 0.5]), min_size=n, max_size=n)),
         "lam": draw(st.lists(st.sampled_from([0.0, 0.5, 1.0, 2.5]), min_size=3, max_size=7)),
-        "kinds": [draw(gen.vector_kind), draw(st.sampled_from(gen.VECTOR_KINDS + ["ndarray_object", "series_object"])), draw(gen.vector_kind)],
+        "kinds": [draw(gen.vector_kind), draw(st.sampled_from(gen.VECTOR_KINDS + ["ndarray_object", "series_object", "series_categorical", "dataframe_categorical"])),
+                  draw(_SF_KINDS)],
         "plans": [draw(gen.index_plan) for _ in range(4)],
         "x_kind": draw(st.sampled_from(["ndarray", "dataframe"])),
         "perm": list(draw(st.permutations(range(n)))),
@@ -615,7 +620,7 @@ def _to_cases(draw):
         "constraint": constraint, "objective": objective,
         "prefit": draw(st.booleans()), "flip": draw(st.booleans()),
         "grid_size": draw(st.sampled_from([3, 10, 1000])),
-        "kinds": [draw(gen.vector_kind_pandas_heavy), draw(gen.vector_kind_pandas_heavy)],
+        "kinds": [draw(gen.vector_kind_pandas_heavy), draw(st.one_of(gen.vector_kind_pandas_heavy, _SF_KINDS))],
         "plans": [draw(gen.index_plan) for _ in range(4)],
         "x_kind": draw(st.sampled_from(["ndarray", "dataframe"])),
         "yname": draw(st.sampled_from(["lab", "y", "0", "col"])),
@@ -639,7 +644,7 @@ def _red_cases(draw):
         "lp": draw(st.booleans()),
         "y_dtype": draw(st.sampled_from(gen.LABEL_DTYPES)),
         "grid_size": draw(st.sampled_from([4, 7])),
-        "kinds": [draw(gen.vector_kind_pandas_heavy), draw(gen.vector_kind_pandas_heavy)],
+        "kinds": [draw(gen.vector_kind_pandas_heavy), draw(st.one_of(gen.vector_kind_pandas_heavy, _SF_KINDS))],
         "plans": [draw(gen.index_plan) for _ in range(3)],
         "x_kind": draw(st.sampled_from(["ndarray", "dataframe"])),
     }
